@@ -106,6 +106,16 @@ Example ex_heap_remove_root :
   heap_remove ex_hkf (mkheap [(0, 0); (2, 12); (1, 11); (3, 13); (0, 0)]%nat 3 4) 1 =
   Some (mkheap [(0, 0); (3, 13); (1, 11); (3, 13); (0, 0)]%nat 2 4, Some (2, 12)%nat).
 Proof. vm_compute. reflexivity. Qed.
+(* clear of that non-empty heap: empty heap of the same capacity, every slot NULL, the three entries
+   released in slot order; an insert afterwards sees none of the old content *)
+Example ex_heap_clear :
+  heap_clear (mkheap [(0, 0); (2, 12); (1, 11); (3, 13); (0, 0)]%nat 3 4) =
+  (mkheap [(0, 0); (0, 0); (0, 0); (0, 0); (0, 0)]%nat 0 4, [(2, 12); (1, 11); (3, 13)]%nat).
+Proof. vm_compute. reflexivity. Qed.
+Example ex_heap_clear_reuse :
+  heap_insert ex_hkf true (fst (heap_clear (mkheap [(0, 0); (2, 12); (1, 11); (3, 13); (0, 0)]%nat 3 4))) 1 7 =
+  Some (mkheap [(0, 0); (1, 7); (0, 0); (0, 0); (0, 0)]%nat 1 4, true).
+Proof. vm_compute. reflexivity. Qed.
 Example ex_drain :
   drain ex_hkf 3 (mkheap [(0, 0); (2, 12); (1, 11); (3, 13); (0, 0)]%nat 3 4) =
   Some [(2, 12); (3, 13); (1, 11)]%nat.
